@@ -465,19 +465,28 @@ public:
 
   void backward_assign(const variable_t &x, const linear_expression_t &e,
                        const this_type &invariant) override {
-    CRAB_WARN(domain_name(), "::backward_assign not implemented");
+    // No inverse operations are implemented: x can be anything before
+    // the assignment.
+    this->operator-=(x);
+    *this = *this & invariant;
   }
 
   void backward_apply(arith_operation_t op, const variable_t &x,
                       const variable_t &y, number_t z,
                       const this_type &invariant) override {
-    CRAB_WARN(domain_name(), "::backward_apply not implemented");
+    // No inverse operations are implemented: x can be anything before
+    // the assignment.
+    this->operator-=(x);
+    *this = *this & invariant;
   }
 
   void backward_apply(arith_operation_t op, const variable_t &x,
                       const variable_t &y, const variable_t &z,
                       const this_type &invariant) override {
-    CRAB_WARN(domain_name(), "::backward_apply not implemented");
+    // No inverse operations are implemented: x can be anything before
+    // the assignment.
+    this->operator-=(x);
+    *this = *this & invariant;
   }
 
   BOOL_OPERATIONS_NOT_IMPLEMENTED(this_type)
